@@ -22,10 +22,13 @@ package canary
 //@   check safety
 //@   modifies nothing
 //
+// Get finds the state of the connection a segment belongs to: the segment's 4-tuple equals the
+// state's in the same orientation (client to sensor) or in the exactly reversed one.
 //@ func (*StateTable).Get
 //@   check safety
 //@   requires tableOK(st)
 //@   ensures result != nil ==> stateOK(result)
+//@   ensures [orientation] result != nil ==> (result.SrcPort == SrcPort && result.DestPort == DestPort && ipeq(result.SrcIP, SrcIP) && ipeq(result.DestIP, DestIP)) || (result.SrcPort == DestPort && result.DestPort == SrcPort && ipeq(result.SrcIP, DestIP) && ipeq(result.DestIP, SrcIP))
 //@   modifies nothing
 //
 //@ func (*StateTable).Add
@@ -71,9 +74,14 @@ package canary
 //@   modifies data[:]
 //@   loop 1: invariant i & 1 == 0
 //
+// send: the frame goes back to the peer: ports and addresses swapped, seq = SND.NXT, ack = RCV.NXT,
+// the flags asked for; the IP id advances by one.
 //@ func (*Canary).send
 //@   check safety
 //@   requires canaryOK(c) && stateOK(state)
+//@   callpre tcp.(*Header).Marshal: hdr.Source == state.DestPort && hdr.Destination == state.SrcPort && hdr.SeqNum == state.SendNext && hdr.AckNum == state.RecvNext && hdr.Ctrl == flags && hdr.Window == state.ReceiveWindow && len(hdr.Payload) == len(payload)
+//@   callpre ipv4.(*Header).Marshal: h.Src == state.DestIP && h.Dst == state.SrcIP && h.Protocol == 6 && h.Version == 4 && h.Len == 20 && h.ID == int(state.ID)
+//@   ensures [ip-id] result == nil ==> state.ID == old(state.ID) + 1
 //@   modifies state.ID
 //@   loop 1: invariant i & 1 == 0
 //
@@ -91,6 +99,9 @@ package canary
 //@   check safety
 //@   requires canaryOK(c) && ctableOK(c) && is4(iph.Src) && is4(iph.Dst) && len(iph.Src) == 16 && len(iph.Dst) == 16
 //@   ensures ctableOK(c)
+//@   callpre (*Canary).send: flags == tcp.SYN|tcp.ACK ==> state.RecvNext == hdr.SeqNum + 1 && state.SendNext == state.InitialSendSequenceNumber + 1 && state.SendUnacknowledged == state.InitialSendSequenceNumber
+//@   callpre (*Canary).send: flags == tcp.ACK && hdr.Ctrl & tcp.FIN == 0 && !fresh(state) ==> state.RecvNext == old(state.RecvNext) + uint32(len(hdr.Payload))
+//@   callpre (*Canary).send: flags == tcp.FIN|tcp.ACK ==> state.RecvNext == hdr.SeqNum + uint32(len(hdr.Payload)) + 1
 //@   check frame
 //@   modifies c.stateTable, type(State)
 //
